@@ -39,10 +39,11 @@ MaxHdrs == IF Rich THEN 3 ELSE 2
 BodySizes == IF Rich THEN {0, 1, 5, 12, 17} ELSE {0, 5}
 \* chunk patterns: sizes of the data chunks, hex rendering, optional chunk extension
 ChunkPats == IF Rich THEN {<<<<5>>, <<"5">>>>, <<<<1, 4>>, <<"1", "4">>>>, <<<<10, 26>>, <<"A", "1a">>>>,
-                           <<<<3, 3, 3>>, <<"3", "003", "3">>>>, <<<<>>, <<>>>>}
+                           <<<<3, 3, 3>>, <<"3", "003", "3">>>>, <<<<15, 31>>, <<"f", "1F">>>>, <<<<>>, <<>>>>}
              ELSE {<<<<5>>, <<"5">>>>, <<<<1, 4>>, <<"1", "4">>>>}
 Exts == IF Rich THEN {"", ";ext=v"} ELSE {""}
-TrailerSets == IF Rich THEN {<<>>, <<<<"X-T1", "t1">>>>, <<<<"X-T1", "a b c">>, <<"X-T2", "z">>>>}
+TrailerSets == IF Rich THEN {<<>>, <<<<"X-T1", "t1">>>>, <<<<"X-T1", "a b c">>, <<"X-T2", "z">>>>,
+                             <<<<"x-checksum", "c1">>, <<"x-size", "9">>>>}       \* declared and sent in lower case
                ELSE {<<>>, <<<<"X-T1", "t1">>>>}
 
 EmptyMsg == [method |-> "", target |-> "", proto |-> "", code |-> "", reason |-> "", headers |-> <<>>,
